@@ -7,10 +7,13 @@ LEVEL_TEXT = ("ConfStore.tla: Get = clone, redact through the clone, render; TLC
               "special/sha256/argon2; deprecated publish/read passwords in defaults, a path, a regex path); each placement is "
               "loaded from YAML by conf.Load and served by the real api.API over HTTP; for every secret x every configuration "
               "endpoint (global, pathdefaults, paths list incl. pages, paths get) TLC evaluates RedactedObs on leak / shown value "
-              "/ deep snapshots of the live configuration. DumpReq.tla: TLC enumerates all requests of <= 2 (thorough 3) header "
-              "lines over 26 spellings; each is sent raw to a real httpp.Server and TLC evaluates DumpObs on the logged dump")
+              "/ deep snapshots of the live configuration. DumpReq.tla: TLC enumerates all requests of protocol version HTTP/1.0, 1.1, "
+              "2.0, 3.0 with <= 2 header lines over 26 spellings (thorough: also 3 lines for 1.1 and 2.0); each is given to the "
+              "real dumpRequest with that ProtoMajor and, for 1.0/1.1 (raw TCP) and 2.0 (TLS + h2 client), sent to a real "
+              "httpp.Server; TLC evaluates DumpObs on every dump")
 LEVEL_NOTE = ("secrets are marker strings (hashes: the hash body); leak = marker in the raw body or in any decoded JSON string; "
-              "credential headers = the six named in DumpReq.tla; HTTP/1.1 only; response dumps are not in the statement")
+              "credential headers = the six named in DumpReq.tla; HTTP/3.0 only by calling dumpRequest (no QUIC listener in httpp); "
+              "over h2 the client writes names in lowercase whatever the spelling; response dumps are not in the statement")
 TECHNIQUE = "TLA+ spec checked by TLC; TLC-generated placements/header cases replayed on the real API / HTTP server; recorded observations validated by TLC"
 
 
@@ -76,37 +79,61 @@ def run(ctx):
     ctx.set("positions_shown_in_a_view", len([x for x in secs if x["shownAt"]]))
     ctx.set("placeholders_seen", sorted({x["shown"] for x in secs if x["shownAt"]}))
 
-    # ---- request dumps
-    g = vf.mc(ctx, "DumpReq", ctx.pick("DumpReq_gen.cfg", "DumpReq_gen3.cfg"), workers=4, timeout=600)
-    hc = [{"id": i, "headers": c["headers"]} for i, c in enumerate(
-        sorted(g.tagged("HDRCASE"), key=lambda c: [(h["name"], h["value"]) for h in c["headers"]]))]
-    if len(hc) < 600:
-        raise vf.Infra("generator produced only %d header cases" % len(hc))
+    # ---- request dumps: protocol version x header lines
+    cfgs = ctx.pick(["DumpReq_gen.cfg"], ["DumpReq_gen.cfg", "DumpReq_gen3.cfg"])
+    raw = {}
+    for cfg in cfgs:
+        g = vf.mc(ctx, "DumpReq", cfg, workers=4, timeout=900)
+        for c in g.tagged("HDRCASE"):
+            raw[(c["proto"], tuple((h["name"], h["value"]) for h in c["headers"]))] = c
+    hc = [{"id": i, "proto": c["proto"], "major": c["major"], "headers": c["headers"]}
+          for i, (_, c) in enumerate(sorted(raw.items()))]
+    protos = sorted({c["proto"] for c in hc})
+    if len(hc) < 2400 or protos != ["HTTP/1.0", "HTTP/1.1", "HTTP/2.0", "HTTP/3.0"]:
+        raise vf.Infra("generator produced only %d header cases, protocols %s" % (len(hc), protos))
     ctx.set("exhaustive", True)
+    if ctx.thorough:
+        # layer 1 describes the current code; the named regression, re-enabled, must be detected by the model
+        x = vf.tlc(ctx, "DumpReq", "DumpReq_lowerlookup.cfg", workers=2, timeout=300, allow_violation=True)
+        if x.violated != "DumpRedacts":
+            raise vf.Infra("self-test: the named regression LowercasedNameLookup (LowerBeforeLookup=TRUE) is no longer detected")
+        ctx.set("selftest_regression_detected_dump", "LowercasedNameLookup (LowerBeforeLookup=TRUE) violates DumpRedacts in the model")
     cf2 = vf.write_ndjson(ctx.path("hdrcases.ndjson"), hc)
     o2 = ctx.path("dump.ndjson")
-    vf.gotest_ok(ctx, "./internal/protocols/httpp/", "^TestVerif_C07_Dump$", cases=cf2, out=o2)
+    vf.gotest_ok(ctx, "./internal/protocols/httpp/", "^TestVerif_C07_Dump$", cases=cf2, out=o2, timeout=1500)
     drecs = vf.read_ndjson(o2)
     lines = [x for x in drecs if x["rec"] == "dump"]
-    if len(lines) < len(hc):
+    summ = [x for x in drecs if x["rec"] == "summary"][0]
+    for pr in ("HTTP/1.0", "HTTP/1.1", "HTTP/2.0"):
+        want = len([c for c in hc if c["proto"] == pr])
+        if summ["wire"].get(pr, 0) != want:
+            raise vf.Infra("only %s of %d %s cases went over the wire" % (summ["wire"].get(pr), want, pr))
+    if len([x for x in lines if x["via"] == "direct"]) < len(hc):
         raise vf.Infra("harness produced %d header records for %d cases" % (len(lines), len(hc)))
-    vf.write_ndjson(d + "/C07_dump_trace.ndjson", drecs)
-    tv2 = vf.tlc(ctx, "TraceDumpReq", "TraceDumpReq.cfg", workers=1, timeout=900, java_opts=["-Xmx4g"])
     seen = set()
-    for bad in tv2.tagged("BAD"):
-        rec = drecs[bad["l"] - 1]
-        if rec["name"] in seen:
-            continue
-        seen.add(rec["name"])
-        ctx.violation({"kind": "dump", "header": rec["canon"], "spelling": rec["name"]},
-                      "the debug dump of a request contains the value of credential header %s (sent as '%s'), e.g. case %d"
-                      % (rec["canon"], rec["name"], rec["case"]))
+    chunk = 50000
+    for i in range(0, len(lines), chunk):
+        part = lines[i:i + chunk]
+        vf.write_ndjson(d + "/C07_dump_trace.ndjson", part)
+        tv2 = vf.tlc(ctx, "TraceDumpReq", "TraceDumpReq.cfg", workers=1, timeout=1200, java_opts=["-Xmx4g"])
+        for bad in tv2.tagged("BAD"):
+            rec = part[bad["l"] - 1]
+            key = (rec["canon"], rec["proto"], rec["via"])
+            if key in seen:
+                continue
+            seen.add(key)
+            ctx.violation({"kind": "dump", "header": rec["canon"], "proto": rec["proto"], "via": rec["via"], "spelling": rec["name"]},
+                          "the debug dump of a %s request (%s) contains the value of credential header %s (sent as '%s'), e.g. case %d"
+                          % (rec["proto"], "dumpRequest called directly" if rec["via"] == "direct" else "real httpp.Server, handlerLogger",
+                             rec["canon"], rec["name"], rec["case"]))
     if ctx.thorough:
         clean = next(x for x in lines if x["credential"] and not x["leak"])
         vf.write_ndjson(d + "/C07_dump_trace.ndjson", [clean, dict(clean, leak=True)])
         st = vf.tlc(ctx, "TraceDumpReq", "TraceDumpReq.cfg", workers=1, timeout=300)
         if [b["l"] for b in st.tagged("BAD")] != [2]:
             raise vf.Infra("self-test: corrupted dump record was not rejected: %s" % st.tagged("BAD"))
+    ctx.set("dump_records_by_protocol_and_route", {"%s %s" % (pr, via): len([x for x in lines if x["proto"] == pr and x["via"] == via])
+                                                    for pr in protos for via in ("direct", "wire")})
     lost = len([x for x in lines if not x["bodyKept"]])
     if lost:
         ctx.note("%d request dumps do not contain the request body (DRIFT, not in the statement)" % lost)
@@ -120,4 +147,5 @@ def run(ctx):
     ctx.sample(hc[len(hc) // 2])
     ctx.assume("the API never returns conf.OptionalPaths; only Global(), PathDefaults and the resolved Paths are views")
     ctx.assume("a deep reflective dump (pointers, interfaces, maps sorted) of the live *conf.Conf before/after a GET decides 'not modified'")
-    ctx.assume("Go's net/http canonicalizes header names before handlerLogger runs (HTTP/1.1 requests over TCP)")
+    ctx.assume("Go's net/http canonicalizes header names before handlerLogger runs (HTTP/1.x over TCP, h2 over TLS); requests built "
+               "for the direct dumpRequest calls get their header names canonicalized the same way (textproto.CanonicalMIMEHeaderKey)")
